@@ -729,6 +729,7 @@ func runC18(p *Prog, r *Report) {
 	if rt := p.Named("memmetrics", "RTMetrics"); rt != nil {
 		n := c09Races(p, r, "C18.R5", []*types.Named{rt})
 		r.Floor("C18.R5", n, 8, "written shared locations of memmetrics.RTMetrics")
+		r.Floor("C18.R5", c09GetOrCreate(p, r, "C18.R5", []*types.Named{rt}), 1, "get-or-create insertions of RTMetrics")
 	} else {
 		r.Anchor("C18.R5", "memmetrics.RTMetrics", "type not found")
 	}
